@@ -61,6 +61,11 @@ class Ref:
             self.log.append(k)
             if self.on_miss == 'raise' and k == 'b':
                 raise OnMissFailed(k)            # the callback raised: nothing to cache
+            if self.on_miss == 'keyerror' and k == 'b':
+                # the callback is a lookup in a backing mapping that does not have the key either (on_miss=store.__getitem__):
+                # no value was produced, the key stays absent, the lookup is a not-found one - c[k] raises KeyError, get and
+                # setdefault answer with the caller's default and count a soft miss
+                raise KeyError(k)
             if self.on_miss == 'store':
                 self.set(k, ('s', k))            # the callback itself stored the key before returning
             v = None if self.on_miss == 'none' else ('m', k)
@@ -152,6 +157,8 @@ class St:
                 log.append(k)
                 if on_miss == 'raise' and k == 'b':
                     raise OnMissFailed(k)
+                if on_miss == 'keyerror' and k == 'b':
+                    raise KeyError(k)
                 if on_miss == 'store':
                     holder.c[k] = ('s', k)      # a loader that fills the cache itself (re-entrant use)
                 return None if on_miss == 'none' else ('m', k)
@@ -401,6 +408,8 @@ class Spec:
 
         def bad(kind, what, exp, obs, tags=()):
             sig = 'C02|read:%s' % what if kind == 'read' else 'C02|op:%s|%s' % (name, what)
+            if self.on_miss == 'keyerror' and kind != 'read' and 'b' in st.log[log0:]:
+                tags = tuple(tags) + ('on_miss_raised_KeyError',)
             V.append((sig, case, exp, obs, None, tags))
 
         c = st.c
@@ -612,8 +621,9 @@ KEY_FAMILIES = {
 }
 
 
-def family_history(clsname, ms, family, hist):
-    """One history over the keys of a family on a fresh cache: [(signature, expected, observed)]."""
+def family_history(clsname, ms, family, hist, om=False):
+    """One history over the keys of a family on a fresh cache: [(signature, expected, observed)].  om: no on_miss,
+    True (returns ('m', key name)) or 'keyerror' (the same, but raises KeyError for the key named 'b')."""
     from boltons import cacheutils
     cls = getattr(cacheutils, clsname)
     names = ALLKEYS[:ms + 1]
@@ -630,9 +640,22 @@ def family_history(clsname, ms, family, hist):
     def contents(cache):
         return {REV.get(k, repr(k)): v for k, v in dict.items(cache)}
 
-    c = cls(max_size=ms)
-    ref = Ref(clsname == 'LRU', ms, False)
+    log, fn = [], None
+    if om:
+        def fn(k):
+            n = REV.get(k, repr(k))
+            log.append(n)
+            if om == 'keyerror' and n == 'b':
+                raise KeyError(k)
+            return ('m', n)
+
+    def counts(cache):
+        return (cache.hit_count, cache.miss_count, cache.soft_miss_count)
+
+    c = cls(max_size=ms, on_miss=fn)
+    ref = Ref(clsname == 'LRU', ms, om)
     for i, op in enumerate(hist):
+        cnt0, m0 = counts(c), (ref.hit, ref.miss, ref.soft)
         try:
             if op[0] == 'copy':
                 try:
@@ -643,6 +666,8 @@ def family_history(clsname, ms, family, hist):
                     return [(sig + 'op:copy|contents', ref.contents(), contents(c2))]
                 c = c2
                 ref = ref.copy()
+                ref.on_miss = om if c.on_miss is not None else False
+                ref.log = list(log)
                 continue
             r_i = impl_apply(c, tr(op))
             if op[0] == 'popitem' and r_i[0] == 'ok':
@@ -656,6 +681,12 @@ def family_history(clsname, ms, family, hist):
             return [(sig + 'op:%s|contents' % op[0], ref.contents(), contents(c))]
         if len(c) > ms:
             return [(sig + 'op:%s|len>max_size' % op[0], '<= %d' % ms, len(c))]
+        d_i = tuple(b - a for a, b in zip(cnt0, counts(c)))
+        d_m = tuple(b - a for a, b in zip(m0, (ref.hit, ref.miss, ref.soft)))
+        if d_i != d_m:
+            return [(sig + 'op:%s|counters(hit,miss,soft)' % op[0], d_m, d_i)]
+        if log != ref.log:
+            return [(sig + 'op:%s|on_miss calls' % op[0], list(ref.log), list(log))]
     # reads with key objects, and the eviction order by further inserts of key objects
     for n in names:
         try:
@@ -696,21 +727,24 @@ def family_history(clsname, ms, family, hist):
 
 
 def strict_shard(arg):
-    clsname, ms, lead, family = arg
+    clsname, ms, lead, family, om = arg
     from mc.inputs import Tally
     t = Tally()
     names = ALLKEYS[:ms + 1]
     ops = []
     for n in names:
         ops += [('set', n, 0), ('getitem', n), ('getd', n, 'D'), ('del', n), ('popd', n, 'D'), ('setdefaultd', n, 1)]
+        if om:
+            ops += [('get', n), ('setdefault', n)]
     ops += [('popitem',), ('clear',), ('copy',), ('update_pairs', ((names[0], 1), (names[-1], 0))),
             ('ior', ((names[-1], 1),))]
     import itertools
     for rest in itertools.product(ops, repeat=2):
         hist = (lead,) + rest
-        case = {'config': {'class': clsname, 'max_size': ms, 'keys': family}, 'history': [list(o) for o in hist]}
+        case = {'config': {'class': clsname, 'max_size': ms, 'keys': family, 'on_miss': om},
+                'history': [list(o) for o in hist]}
         t.count(nontrivial=True, sample=case)
-        for sg, exp, got in family_history(clsname, ms, family, hist):
+        for sg, exp, got in family_history(clsname, ms, family, hist, om):
             t.bad(sg, case, exp, got)
     return t
 
@@ -741,13 +775,19 @@ def large_plan(ms):
 
 
 def large_shard(arg):
-    clsname, ms = arg
+    clsname, ms, om = (tuple(arg) + (False,))[:3]
     from boltons import cacheutils
     from mc.inputs import Tally
     t = Tally()
     cls = getattr(cacheutils, clsname)
-    c, ref = cls(max_size=ms), Ref(clsname == 'LRU', ms, False)
-    case = {'config': {'class': clsname, 'max_size': ms, 'keys': 'directed-large'}, 'history': 'large_plan(%d)' % ms}
+    log, fn = [], None
+    if om:
+        def fn(k):
+            log.append(k)
+            return ('m', k)
+    c, ref = cls(max_size=ms, on_miss=fn), Ref(clsname == 'LRU', ms, bool(om))
+    case = {'config': {'class': clsname, 'max_size': ms, 'keys': 'directed-large', 'on_miss': bool(om)},
+            'history': 'large_plan(%d)' % ms}
     plan = large_plan(ms)
 
     def agree(i, op):
@@ -761,7 +801,17 @@ def large_shard(arg):
         if dict(dict.items(c)) != ref.contents():
             t.bad('C02|large|contents', case, 'as the reference', {'step': i, 'op': repr(op)[:80]})
             return False
+        if log != ref.log:
+            t.bad('C02|large|on_miss calls', case, 'one call per lookup of an absent key', {'step': i, 'op': repr(op)[:80]})
+            return False
+        if (c.hit_count - base[0], c.miss_count - base[1], c.soft_miss_count - base[2]) != (ref.hit, ref.miss, ref.soft):
+            t.bad('C02|large|counters(hit,miss,soft)', case, (ref.hit, ref.miss, ref.soft),
+                  {'step': i, 'op': repr(op)[:80],
+                   'got': (c.hit_count - base[0], c.miss_count - base[1], c.soft_miss_count - base[2])})
+            return False
         return True
+
+    base = (0, 0, 0)      # counters of the object in use when it was obtained (a copy's start values are left open)
 
     global RING_LIMIT
     saved, RING_LIMIT = RING_LIMIT, 4 * ms + 64
@@ -775,6 +825,8 @@ def large_shard(arg):
                     t.bad('C02|large|op:copy|raised', case, 'a copy', type(e).__name__)
                     break
                 c, ref = c2, ref.copy()
+                ref.on_miss, ref.log = bool(om) and c.on_miss is not None, list(log)
+                base = (c.hit_count, c.miss_count, c.soft_miss_count)
             else:
                 r_i = impl_apply(c, op)
                 r_m = ref.apply(op, r_i)
@@ -813,6 +865,7 @@ def configs(tier):
             out.append((cls, ms, 'none'))
             out.append((cls, ms, 'raise'))
             out.append((cls, ms, 'store'))
+            out.append((cls, ms, 'keyerror'))
     return out
 
 
@@ -833,14 +886,17 @@ def run(ctx):
             names = ALLKEYS[:ms + 1]
             for lead in [('set', n, 1) for n in names] + [('update_pairs', tuple((n, 0) for n in names))]:
                 for family in KEY_FAMILIES:
-                    sk_tasks.append((cls, ms, lead, family))
+                    for om in (False, True, 'keyerror'):
+                        sk_tasks.append((cls, ms, lead, family, om))
     inputs.run_shards(ctx, strict_shard, sk_tasks, part='key-kinds', rule=(
         'every history of 3 operations (the first one an insert) per key family - keys of a class whose __eq__ accepts '
-        'only its own kind; tuples of length 0-2; None and falsy keys; floats, big ints, bytes, frozensets - against the '
-        'reference cache'))
+        'only its own kind; tuples of length 0-2; None and falsy keys; floats, big ints, bytes, frozensets - without on_miss, '
+        'with an on_miss that returns a value, and with one that raises KeyError for one key - against the reference cache '
+        '(results, contents, counter deltas, on_miss calls, final reads and eviction order)'))
     sizes = (64, 257, 1025) if ctx.quick() else (64, 129, 257, 513, 1025, 4097)
-    inputs.run_shards(ctx, large_shard, [(cls, ms) for cls in ('LRI', 'LRU') for ms in sizes], part='directed-large', rule=(
-        'directed, NOT exhaustive: one fixed operation sequence per capacity (see large_plan) against the reference cache, '
+    inputs.run_shards(ctx, large_shard, [(cls, ms, om) for cls in ('LRI', 'LRU') for ms in sizes for om in (False, True)], part='directed-large', rule=(
+        'directed, NOT exhaustive: one fixed operation sequence per capacity (see large_plan), without and with an on_miss, '
+        'against the reference cache, '
         'ring and contents compared after every bulk operation and every 64th step, then one eviction probe per slot'))
     cov = histories.merge_coverage(ctx, parts, rule=(
         'BFS to fixpoint over all histories of the op menu (keys = max_size+1, values as listed per search); a state is the '
@@ -854,11 +910,12 @@ def run(ctx):
 def replay(ctx, data):
     cfg = data['case']['config']
     if cfg.get('keys') == 'directed-large':
-        t = large_shard((cfg['class'], cfg['max_size']))
+        t = large_shard((cfg['class'], cfg['max_size'], cfg.get('on_miss', False)))
         return ['%s expected=%r observed=%r' % (rec[6], rec[1], rec[2]) for rec in t.viols.values()]
     if isinstance(cfg.get('keys'), str):         # a key-kinds history
         hist = [tuple(tuple(tuple(y) for y in x) if isinstance(x, list) else x for x in op) for op in data['case']['history']]
-        return ['%s expected=%r observed=%r' % v for v in family_history(cfg['class'], cfg['max_size'], cfg['keys'], hist)]
+        return ['%s expected=%r observed=%r' % v for v in family_history(cfg['class'], cfg['max_size'], cfg['keys'], hist,
+                                                                                    cfg.get('on_miss', False))]
     spec = Spec(cfg['class'], cfg['max_size'], cfg['on_miss'], nkeys=len(cfg['keys']), values=cfg.get('values', VALUES))
     hist = [tuple(tuple(tuple(y) if isinstance(y, list) else y for y in x) if isinstance(x, list) else x
                   for x in op) for op in data['case']['history']]
